@@ -254,7 +254,8 @@ fn flat(ts: proc_macro2::TokenStream, spacing: bool) -> Vec<String> {
             }
             TokenTree::Punct(p) => {
                 let next_is_punct = matches!(toks.get(i + 1), Some(TokenTree::Punct(_)));
-                if spacing && p.spacing() == Spacing::Joint && next_is_punct {
+                // (a comma never combines with a following punctuation into one Rust token, so its spacing is immaterial)
+                if spacing && p.spacing() == Spacing::Joint && next_is_punct && p.as_char() != ',' {
                     out.push(format!("{}+", p.as_char()));
                 } else {
                     out.push(p.as_char().to_string());
@@ -288,7 +289,9 @@ fn has_bound_t_display(out: &str) -> bool {
     out.contains("T : derive_more :: core :: fmt :: Display")
 }
 
-fn check_list(idx: u64, elems: &[String], trailing: bool, alias_mask: u32, integrate: bool, acc: &mut Acc) {
+fn check_list(idx: u64, elems: &[String], trailing: bool, alias_mask: u32, integrate: bool, tight: bool, acc: &mut Acc) {
+    // `tight`: no whitespace after the separating commas, so that the comma token is `Joint` with a following punctuation
+    let sep = if tight { "," } else { ", " };
     acc.lists += 1;
     let display = find_derive("Display").unwrap();
     let mut parts = Vec::new();
@@ -299,7 +302,7 @@ fn check_list(idx: u64, elems: &[String], trailing: bool, alias_mask: u32, integ
             parts.push(e.clone());
         }
     }
-    let mut list = parts.join(", ");
+    let mut list = parts.join(sep);
     if trailing {
         list.push(',');
     }
@@ -350,8 +353,8 @@ fn check_list(idx: u64, elems: &[String], trailing: bool, alias_mask: u32, integ
     // ---- integration A: the derive's own count of arguments, via a sentinel
     let k = reference.len();
     let body = if list.trim().is_empty() { String::new() } else { format!(", {list}") };
-    let plain = parts.join(", ");
-    let with_sentinel = if parts.is_empty() { "_0".to_string() } else { format!("{plain}, _0") };
+    let plain = parts.join(sep);
+    let with_sentinel = if parts.is_empty() { "_0".to_string() } else { format!("{plain}{sep}_0") };
     for probe_k in (if trailing { vec![] } else { vec![k, k + 1] }) {
         acc.checks += 1;
         let item = format!("#[display(\"{{{probe_k}}}\", {with_sentinel})] struct S<T>(T);");
@@ -483,11 +486,14 @@ pub fn main(args: &[String]) -> i32 {
                 if elems.is_empty() && trailing {
                     continue;
                 }
-                check_list(idx, elems, trailing, 0, *integrate, &mut acc);
+                check_list(idx, elems, trailing, 0, *integrate, false, &mut acc);
+                if *integrate && !trailing {
+                    check_list(idx, elems, trailing, 0, true, true, &mut acc);
+                }
             }
             if *integrate && !elems.is_empty() && elems.len() <= 2 {
                 for mask in 1..(1u32 << elems.len()) {
-                    check_list(idx, elems, false, mask, true, &mut acc);
+                    check_list(idx, elems, false, mask, true, false, &mut acc);
                 }
             }
             acc
